@@ -51,6 +51,7 @@ type scenario struct {
 	BigHdr   []int    `json:"bighdr"` // per stream: extra metadata bytes (forces CONTINUATION when large)
 	Steps    []step   `json:"steps"`
 	RRGrants []uint32 `json:"rr_grants,omitempty"`
+	Unary    []bool   `json:"unary,omitempty"` // per stream: single message sent with END_STREAM on its last frame (non-client-streaming call shape)
 }
 
 func pattern(s, i, n int) []byte {
@@ -93,6 +94,11 @@ func genScenario(rng *rand.Rand, fam string) scenario {
 				ms = append(ms, rng.Intn(40000))
 			}
 		}
+		un := rng.Intn(3) == 0
+		if un {
+			ms = ms[:1]
+		}
+		sc.Unary = append(sc.Unary, un)
 		sc.Msgs = append(sc.Msgs, ms)
 		bh := 0
 		if rng.Intn(5) == 0 {
@@ -360,7 +366,8 @@ func runClientSendOpt(sc scenario, rr bool) *outcome {
 		go func() {
 			defer wg.Done()
 			defer rn.rec.with(s, func(a *appStream) { a.done = true })
-			st, err := fx.CC.NewStream(ctx, &grpc.StreamDesc{ClientStreams: true, ServerStreams: true}, "/verif.Flow/Send")
+			unary := s < len(sc.Unary) && sc.Unary[s]
+			st, err := fx.CC.NewStream(ctx, &grpc.StreamDesc{ClientStreams: !unary, ServerStreams: true}, "/verif.Flow/Send")
 			if err != nil {
 				rn.rec.with(s, func(a *appStream) { a.sendErr = err })
 				return
@@ -377,7 +384,10 @@ func runClientSendOpt(sc scenario, rr bool) *outcome {
 			}
 			var sendErr error
 			rn.rec.with(s, func(a *appStream) { sendErr = a.sendErr })
-			if sendErr == nil {
+			if sendErr == nil && unary {
+				// the single message carried the half-close
+				rn.rec.with(s, func(a *appStream) { a.closeSent = true })
+			} else if sendErr == nil {
 				if err := st.CloseSend(); err == nil {
 					rn.rec.with(s, func(a *appStream) { a.closeSent = true })
 				}
